@@ -434,6 +434,13 @@ def params_list(tier):
                     if tier == "quick" and (nb != "raising-neighbour" and (b is None or b[0] == "data")):
                         continue
                     out.append((api, size, 1500, ("drop",), b, nb, "cs", 1, 8))
+    # the resend (keep-alive) interval is LONGER than the message timeout: only one copy is ever in flight, every
+    # retransmission hangs on the timeout callback alone; outages that swallow the message once, twice, three times
+    for api in (APIS if tier == "thorough" else ("c.send_guaranteed", "s.send_guaranteed")):
+        for size in (0, 40, 2500):
+            for ka in ("cs|ka2.0", "cs|ka1.5") if tier == "thorough" or size != 0 else ("cs|ka2.0",):
+                for b in (("both", 0, 70), ("both", 0, 160), ("data", 0, 230), ("both", 1, 100)):
+                    out.append((api, size, 1500, ("drop",), b, False, ka, 1, 8))
     # part "loss": representative sizes, richer fates, blackouts, other traffic
     reps = [(1500, 40), (1500, 1434), (1500, 2500), (512, 700), (1500, 3200)]
     fates = ("drop", "dup", "delay8", "delay70")
